@@ -243,6 +243,25 @@ async fn run_case(dir: PathBuf, ops: Vec<String>) -> Vec<String> {
                         }
                         rs.join(",")
                     }
+                    "parspub" => {
+                        // n tasks publish on the same stream at once
+                        strip = true;
+                        let h: usize = t[1].parse().expect("h");
+                        let tid: u64 = t[2].parse().expect("tid");
+                        let n: usize = t[3].parse().expect("n");
+                        let mut tasks = vec![];
+                        for i in 0..n {
+                            let wb = handles[h].clone();
+                            tasks.push(tokio::spawn(async move {
+                                tokio::time::timeout(Duration::from_millis(800), wb.spub_generic(tid, json!(i))).await.map(|r| r.is_ok()).unwrap_or(false)
+                            }));
+                        }
+                        let mut okc = 0;
+                        for tk in tasks {
+                            if tk.await.unwrap_or(false) { okc += 1; }
+                        }
+                        format!("spub:{okc}/{n}")
+                    }
                     "buffer" => {
                         let h: usize = t[1].parse().expect("h");
                         let b = handles[h].send_buffer(Duration::from_millis(t[3].parse().expect("ms"))).await;
@@ -258,6 +277,7 @@ async fn run_case(dir: PathBuf, ops: Vec<String>) -> Vec<String> {
                         if r.is_ok() { "ok".to_owned() } else { "err".to_owned() }
                     }
                     "sleep" => {
+                        strip = true;
                         tokio::time::sleep(Duration::from_millis(t[1].parse().expect("ms"))).await;
                         "ok".to_owned()
                     }
